@@ -115,9 +115,16 @@ def run_builtin(job, res):
         acts = w.get("acts") or [["cov", t] for t in w["targets"]]
         data["acts"] = acts
         try:
-            for kind, t in acts:
+            for ai, (kind, t) in enumerate(acts):
                 if kind == "cov":
-                    sv.cov.frame = t
+                    # the doors to a covariance frame change, in turn: the setter (frame name / Frame object) and copy(frame=)
+                    door = (wi + ai) % 3
+                    if door == 0 or (door == 1 and t in ("QSW", "TNW")):
+                        sv.cov.frame = t
+                    elif door == 1:
+                        sv.cov.frame = fr.get_frame(t)
+                    else:
+                        sv.cov = sv.cov.copy(frame=t)
                 else:
                     sv.frame = t          # the state itself changes frame; a covariance in the state's frame follows
         except Exception as e:
@@ -218,6 +225,32 @@ def run_builtin(job, res):
                            float((np.abs(got - want) / sc).max()) <= 1e-9, "cov/attached-to-other-state",
                            f"{start}->{tgt}: relative deviation {float((np.abs(got - want) / sc).max()):.3g} from a covariance built on the state itself",
                            {"start": start, "target": tgt, "kep": kep_})
+    # ---- a covariance RE-ATTACHED to its state after the state changed frame (a copy kept as a backup and put back, `sv.cov = sv.cov.copy()`):
+    # it is still the covariance of that state, and converts as one that was never detached
+    if job.get("follow"):
+        for start in ("EME2000", "GCRF", "TOD"):
+            for moved in ("ITRF", "MOD", "PEF"):
+                for last in ("QSW", "TNW", start, "TEME"):
+                    def fresh2():
+                        s_ = StateVector(keps[1], DATE, "keplerian", "EME2000").copy(frame=start, form="cartesian")
+                        s_.cov = Cov(s_, c0, fr.get_frame(start))
+                        return s_
+                    ref = fresh2()
+                    ref.cov.frame = last
+                    want = np.asarray(ref.cov, float)
+                    sc = np.sqrt(np.outer(np.diag(want), np.diag(want)))
+                    mine = fresh2()
+                    mine.frame = moved                 # the covariance follows its state
+                    mine.cov = mine.cov.copy()         # detached and put back
+                    res["evaluations"] += 1
+                    try:
+                        mine.cov.frame = last
+                        dev = float((np.abs(np.asarray(mine.cov, float) - want) / sc).max())
+                        okr, msg = dev <= 1e-7, f"relative deviation {dev:.3g} from the covariance that was never detached"
+                    except Exception as e:
+                        okr, msg = False, f"{type(e).__name__}: {e}"
+                    clause("a covariance put back on its state after the state changed frame converts as one that was never detached", okr, "cov/reattached",
+                           f"state {start} -> {moved}, cov = cov.copy(), cov -> {last}: {msg}", {"start": start, "moved": moved, "target": last})
     # ---- ways of SUPPLYING the covariance: the frame by name (the constructor's documented argument type) or as a Frame object, the
     # matrix as a float array, nested lists, an integer-valued array, or another Cov object (which must stay independent)
     if job.get("follow"):
